@@ -69,3 +69,22 @@ Fixpoint check_c15p (post : nat) (o : list obs) : bool :=
    expected records, the end of input, and the end of input again for every further request ---- *)
 Definition check_c14p (expected : list record) (post : nat) (o : list obs) : bool :=
   list_eqb obs_eqb o (map (fun r => BRec (observe_record r)) expected ++ BEnd :: repeat BEnd post).
+
+(* ---- wave 3: the two remaining C14 decisions of the driver as extracted checkers ----
+   "the result is the same whatever the sizes of the chunks": all observed outcome sequences (one per
+   chunking) are equal to the first one *)
+Definition check_same_chunkings (seqs : list (list obs)) : bool :=
+  match seqs with
+  | [] => false
+  | h :: t => forallb (list_eqb obs_eqb h) t
+  end.
+
+(* a file that holds n records ("//" lines) is read as n records, the end of input, and the end of
+   input again for each of the `post` further requests (bundled files: the record count is known, the
+   record contents are checked by check_c14p when the file is an instance of the round-trip theorem) *)
+Fixpoint check_count (n post : nat) (o : list obs) : bool :=
+  match n, o with
+  | S n', BRec _ :: t => check_count n' post t
+  | O, BEnd :: t => list_eqb obs_eqb t (repeat BEnd post)
+  | _, _ => false
+  end.
